@@ -93,4 +93,8 @@ class zero_pad:
                 return "after output %d: %d reads, expected %d" % (k, src.pulled, exp_reads)
         if got != want:
             return "zero_pad(range(1,%d), %d, %d) = %r, property says %r" % (L + 1, left, right, got, want)
+        for kind in (list, tuple):
+            r = outcome(lambda: list(real(kind(range(1, L + 1)), left=left, right=right, zero="z")))
+            if r != ("ok", want):
+                return "zero_pad on a %s: %r, property says %r" % (kind.__name__, r, want)
         return None
